@@ -13,7 +13,7 @@ from tlz import compose, get, partition_all
 from dask import config
 from dask_array._new_collection import new_collection
 from dask_array._expr import ArrayExpr
-from dask_array._utils import compute_meta
+from dask_array._utils import _empty_meta, compute_meta
 from dask_array._core_utils import _concatenate2, handle_out
 from dask_array._numpy_compat import ComplexWarning
 from dask_array._utils import validate_axis
@@ -990,12 +990,17 @@ class PartialReduce(ArrayExpr):
         original_dtype = getattr(self.reduced_meta, "dtype", None) or getattr(meta, "dtype", None)
 
         if self.reduced_meta is not None:
+            # ``reduced_meta`` is the chunk function applied to the empty input
+            # meta with keepdims, i.e. one element per axis.  ``func`` may be a
+            # user aggregate/combine function: hand it an empty block, never a
+            # non-empty one, before the graph is executed.
+            reduced_meta = _empty_meta(self.reduced_meta)
             try:
-                meta = self.func(self.reduced_meta, computing_meta=True)
+                meta = self.func(reduced_meta, computing_meta=True)
             except TypeError:
                 # No computing_meta kwarg, try without it
                 try:
-                    meta = self.func(self.reduced_meta)
+                    meta = self.func(reduced_meta)
                 except ValueError as e:
                     if "zero-size array to reduction operation" in str(e):
                         meta = self.reduced_meta
